@@ -225,6 +225,9 @@ class RunNormalizer(CallbackBase):
             )
             stream_resource_doc["uri"] = "file://localhost/" + str(file_path).lstrip("/")
 
+        # Do not modify the parameters dict of the document we were given
+        stream_resource_doc["parameters"] = dict(stream_resource_doc["parameters"])
+
         # Ensure that the internal path within HDF5 files is referenced with "dataset" parameter
         if stream_resource_doc["mimetype"] == "application/x-hdf5":
             stream_resource_doc["parameters"]["dataset"] = stream_resource_doc["parameters"].pop(
@@ -274,7 +277,7 @@ class RunNormalizer(CallbackBase):
         # There are cases when the frame_index is reset during the scan (e.g. if Datums for the same
         # data_key belong to different Resources), so the 'carry' field is used to keep track of the
         # previous frame index.
-        datum_kwargs = datum_doc.get("datum_kwargs", {})
+        datum_kwargs = dict(datum_doc.get("datum_kwargs", {}))
         frame = datum_kwargs.pop("frame", None)
         if frame is not None:
             desc_name = self._desc_name_by_uid[desc_uid]  # Name of the descriptor (stream)
